@@ -458,6 +458,23 @@ pub(crate) fn serialize_rec<'a>(m: &Message<'a>, buffer: &mut [u8]) -> Result<us
     Ok(n)
 }
 
+/// as `serialize_rec` without walking the suffix: for harnesses that also replace `TlvSetBuilder::add` by its
+/// recording stub (harness/tlv), where the suffix octets are never written and only the suffix length is meaningful
+pub(crate) fn serialize_rec_lite<'a>(m: &Message<'a>, buffer: &mut [u8]) -> Result<usize, WireFormatError> where 'a: 'a {
+    let n = m.wire_size();
+    assert!(buffer.len() >= n, "Message::serialize: buffer shorter than the message");
+    unsafe {
+        SER_COUNT += 1;
+        SER_HEADER = Some(m.header);
+        SER_BODY = Some(m.body.clone());
+        SER_SUFFIX_LEN = m.suffix.wire_size();
+        SER_BUF_ADDR = buffer.as_ptr() as usize;
+        SER_BUF_LEN = buffer.len();
+        SER_TLV_COUNT = 0;
+    }
+    Ok(n)
+}
+
 pub(crate) fn ser_count() -> u32 { unsafe { SER_COUNT } }
 pub(crate) fn ser_header() -> Option<Header> { unsafe { SER_HEADER } }
 pub(crate) fn ser_body() -> Option<MessageBody> { unsafe { SER_BODY.clone() } }
